@@ -207,7 +207,7 @@ func (p *exeParser) readFragment() (sel Selection, err error) {
 			line := p.line
 			col := p.col
 			if t, err = p.readType(); err == nil {
-				if _, ok := t.(*Ref); ok {
+				if notCondType(t) {
 					err = parseError(line, col, "type %s not defined", t.Name())
 				} else {
 					sel, err = p.readInline(t)
@@ -220,6 +220,17 @@ func (p *exeParser) readFragment() (sel Selection, err error) {
 		}
 	}
 	return
+}
+
+// notCondType tells whether t can not be a type condition. A condition is
+// the name of a type that is defined, not the name of a directive (GetType
+// finds those as well) and not a list or non-null of something.
+func notCondType(t Type) bool {
+	switch t.(type) {
+	case *Ref, *List, *NonNull, *Directive:
+		return true
+	}
+	return false
 }
 
 func (p *exeParser) readFragRef(token string) (fr *FragRef, err error) {
